@@ -1,5 +1,6 @@
 import Mhd.Model.FramingRef
 import Mhd.Model.FramingTake
+import Mhd.Model.FramingReqHead
 import Driver.Common
 open Mhd.Framing Driver
 
@@ -9,7 +10,8 @@ instance : HeadParser := strictParser
 /-!
   Engine `frame` (C03).  One output line per input line.
 
-  run <lvl> <behs|-> <seghex>…      whole connection: events of `runSegs`
+  run <lvl> <behs|-> <seghex>…      whole connection: events of `runSegs` (strict head splitter)
+  runreal <lvl> <behs|-> <seghex>…  the same with C02's scanners as head parser (`reqParser lvl 4096`)
   ref <seghex>                       the Lean reference framer on a stream
   decide <lvl> <0|1> <namehex:valuehex>…   `decideBody`
   chunk <lvl> <cur> <off> <bufhex>   one `chunkAct`
@@ -130,6 +132,11 @@ def stepLine (u : Unit) (ws : List String) : Unit × List String :=
     match parseInt lvl, parseBehs behs, segs.mapM bytesOfHex with
     | some l, some bs, some sg =>
       if l < -3 ∨ 3 < l then (u, ["bad-op"]) else (u, [showSt (runSegs l (appOf bs) sg)])
+    | _, _, _ => (u, ["bad-op"])
+  | "runreal" :: lvl :: behs :: segs =>
+    match parseInt lvl, parseBehs behs, segs.mapM bytesOfHex with
+    | some l, some bs, some sg =>
+      if l < -3 ∨ 3 < l then (u, ["bad-op"]) else (u, [showSt (@runSegs (reqParser l 4096) l (appOf bs) sg)])
     | _, _, _ => (u, ["bad-op"])
   | ["ref", lvl, seg] =>
     match parseInt lvl, bytesOfHex seg with
